@@ -249,18 +249,27 @@ theorem found_cases {fl : Option Nat} {cs : List RNode} (ok : ForestOKx fl cs) (
     obtain ⟨h1, h2⟩ := ok.lone c hc hr hfl
     exact ⟨findIn_lone id c x h2 h, h1, h2⟩
 
+theorem findIn_ne_top' (id : Nat) (t : RNode) (h : t.id ≠ id) : findIn id t = findInList id t.kids := by
+  cases t with
+  | mk i n r ro tp m ks => simp only [RNode.id] at h; simp [findIn, h, RNode.kids]
+
+theorem findIn_top_id' (id : Nat) (c x : RNode) (hc : c.id = id) (hf : findIn id c = some x) : x = c := by
+  rw [← hc, findIn_self] at hf
+  cases hf; rfl
+
 /-! ### ATTACH -/
 
 theorem idsK_lone (t : RNode) (h : t.kids = []) : idsK t = [t.id] := by
   cases t with
   | mk i n r ro tp m ks => simp only [RNode.kids] at h; subst h; simp [idsK, keys, RNode.id]
 
-theorem nodup_of_perm_ids {a b : List (Nat × String)} (h : a.Perm b) (hb : (b.map (·.1)).Nodup) : (a.map (·.1)).Nodup :=
+theorem nodup_of_perm_ids {a b : List (Nat × String × Bool)} (h : a.Perm b) (hb : (b.map (·.1)).Nodup) : (a.map (·.1)).Nodup :=
   ((h.map (·.1)).nodup_iff).mpr hb
-theorem nodup_of_perm_names {a b : List (Nat × String)} (h : a.Perm b) (hb : (b.map (·.2)).Nodup) : (a.map (·.2)).Nodup :=
-  ((h.map (·.2)).nodup_iff).mpr hb
+theorem nodup_of_perm_names {a b : List (Nat × String × Bool)} (h : a.Perm b) (hb : (namesOf b).Nodup) : (namesOf a).Nodup := by
+  unfold namesOf at hb ⊢
+  exact (((h.filter (fun k => !k.2.2)).map (·.2.1)).nodup_iff).mpr hb
 
-theorem kid_key_mem (p k : RNode) (hk : k ∈ p.kids) : (k.id, k.name) ∈ keys p := by
+theorem kid_key_mem (p k : RNode) (hk : k ∈ p.kids) : (k.id, k.name, k.isRoot) ∈ keys p := by
   rw [keys_eq]
   exact List.mem_cons_of_mem _ (mem_keysL_of_mem hk (self_mem_keys k))
 
@@ -277,8 +286,9 @@ theorem attach_ok {cs : List RNode} {c : RNode} (ok : ForestOKx (some c.id) cs) 
     intro t ht; rw [← hfilt] at ht; exact mem_filter_top ht
   -- ids / names of filt ++ c are duplicate-free
   have hid1 : ((keysL filt ++ keys c).map (·.1)).Nodup := nodup_of_perm_ids hperm1 ok.ids
-  have hnm1 : ((keysL filt ++ keys c).map (·.2)).Nodup := nodup_of_perm_names hperm1 ok.names
-  simp only [List.map_append] at hid1 hnm1
+  have hnm1 : (namesOf (keysL filt ++ keys c)).Nodup := nodup_of_perm_names hperm1 ok.names
+  simp only [List.map_append] at hid1
+  rw [namesOf_append] at hnm1
   have hidf : (idsL filt).Nodup := (List.nodup_append.mp hid1).1
   -- the receiver is in filt
   have hpm : pid ∈ idsL filt := by
@@ -292,10 +302,22 @@ theorem attach_ok {cs : List RNode} {c : RNode} (ok : ForestOKx (some c.id) cs) 
     | some p => exact ⟨p, rfl⟩
     | none => exact absurd h (findInList_ne_none_of_mem pid filt hpm)
   obtain ⟨_, hpk⟩ := findInList_some pid filt p hp
+  have hpkids : plainL p.kids = true := by
+    obtain ⟨t, ht, hft⟩ := find_in_some_top pid filt p hp
+    by_cases hid : t.id = pid
+    · rw [findIn_top_id' pid t p hid hft]; exact ok.plainKids t (hfm t ht).1
+    · rw [findIn_ne_top' pid t hid] at hft
+      exact plain_kids p (plain_of_findInList pid t.kids p (ok.plainKids t (hfm t ht).1) hft)
   have hfresh : ∀ k ∈ p.kids, k.name ≠ c.name := by
     intro k hk e
-    have h1 : k.name ∈ (keysL filt).map (·.2) := List.mem_map.mpr ⟨_, hpk _ (kid_key_mem p k hk), rfl⟩
-    have h2 : c.name ∈ (keys c).map (·.2) := List.mem_map.mpr ⟨_, self_mem_keys c, rfl⟩
+    have hkr : k.isRoot = false := plain_isRoot k (plainL_mem hpkids hk)
+    have hcr : c.isRoot = false := plain_isRoot c hcp
+    have h1 : k.name ∈ namesOf (keysL filt) := by
+      simp only [namesOf, List.mem_map, List.mem_filter]
+      exact ⟨(k.id, k.name, k.isRoot), ⟨hpk _ (kid_key_mem p k hk), by simp [hkr]⟩, rfl⟩
+    have h2 : c.name ∈ namesOf (keys c) := by
+      simp only [namesOf, List.mem_map, List.mem_filter]
+      exact ⟨(c.id, c.name, c.isRoot), ⟨self_mem_keys c, by simp [hcr]⟩, rfl⟩
     exact (List.nodup_append.mp hnm1).2.2 _ h1 _ h2 e
   have hperm2 := keysL_updateInList pid (hangF c) (keys c) filt p hidf hp (keys_hangF c p hfresh)
   have hperm := hperm2.trans hperm1
@@ -763,10 +785,10 @@ theorem setMd_ok {fl : Option Nat} {cs : List RNode} (ok : ForestOKx fl cs) (id 
 /-! ### new top-level objects -/
 
 theorem newTop_ok {cs : List RNode} (ok : ForestOK cs) (x : RNode) (hk : x.kids = [])
-    (hid : x.id ∉ idsL cs) (hname : x.name ∉ namesL cs)
+    (hid : x.id ∉ idsL cs) (hname : x.isRoot = false → x.name ∉ namesL cs)
     (hx : (x.isRoot = true ∧ x.root = some x.id ∧ x.treepath = some "") ∨ (x.isRoot = false ∧ x.root = none)) :
-    ForestOK (cs ++ [x]) ∧ keysL (cs ++ [x]) = keysL cs ++ [(x.id, x.name)] := by
-  have hkeys : keysL (cs ++ [x]) = keysL cs ++ [(x.id, x.name)] := by
+    ForestOK (cs ++ [x]) ∧ keysL (cs ++ [x]) = keysL cs ++ [(x.id, x.name, x.isRoot)] := by
+  have hkeys : keysL (cs ++ [x]) = keysL cs ++ [(x.id, x.name, x.isRoot)] := by
     rw [keysL_append]; simp only [keysL_cons, keysL_nil, List.append_nil]; rw [keys_eq, hk]; simp
   refine ⟨?_, hkeys⟩
   constructor
@@ -775,11 +797,16 @@ theorem newTop_ok {cs : List RNode} (ok : ForestOK cs) (x : RNode) (hk : x.kids 
     intro a ha b hb e
     simp only [List.mem_singleton] at hb
     exact hid (by rw [← hb, ← e]; exact ha)
-  · simp only [namesL, hkeys, List.map_append, List.map_cons, List.map_nil]
-    refine List.nodup_append.mpr ⟨ok.names, by simp, ?_⟩
-    intro a ha b hb e
-    simp only [List.mem_singleton] at hb
-    exact hname (by rw [← hb, ← e]; exact ha)
+  · simp only [namesL, hkeys, namesOf_append]
+    refine List.nodup_append.mpr ⟨ok.names, ?_, ?_⟩
+    · cases hr : x.isRoot <;> simp [namesOf, hr]
+    · intro a ha b hb e
+      cases hr : x.isRoot with
+      | true => simp [namesOf, hr] at hb
+      | false =>
+        simp only [namesOf, hr, List.filter_cons, Bool.not_false, if_true, List.filter_nil, List.map_cons, List.map_nil,
+          List.mem_singleton] at hb
+        exact hname hr (by rw [← hb, ← e]; exact ha)
   · intro c hc
     simp only [List.mem_append, List.mem_singleton] at hc
     cases hc with
